@@ -946,11 +946,24 @@ def op_probe(step, ctx):
     return [{'op': 'probe', 'vals': vals, 'outcome': 'ok', 'hc': hc_flag()}]
 
 
+def op_set_header(step, ctx):
+    """lf.file_header.header_id = <str> / .sequence_number = <int> (public attributes of the header object), between two writes."""
+    ev = {'op': 'set_header', 'lf': step['lf'], 'field': step['field'], 'text': cps(str(step['v']))}
+    try:
+        setattr(ctx['lfs'][step['lf']].file_header, step['field'], step['v'])
+        ev['outcome'] = 'ok'
+    except Exception as e:  # noqa
+        ev['outcome'] = 'raised'
+        ev['exc'] = exc_text(e)
+    ev['hc'] = hc_flag()
+    return [ev]
+
+
 def op_mark(step, ctx):
     return [{'op': 'mark', 'what': step.get('what', ''), 'outcome': 'ok', 'hc': hc_flag()}]
 
 
-OPS = {'mark': op_mark, 'probe': op_probe, 'nofmt_replace': op_nofmt_replace, 'set_sul': op_set_sul, 'script': op_script, 'attr': op_attr, 'lowwrite': op_lowwrite, 'new_file': op_new_file, 'add_lf': op_add_lf, 'add': op_add, 'set': op_set,
+OPS = {'mark': op_mark, 'probe': op_probe, 'set_header': op_set_header, 'nofmt_replace': op_nofmt_replace, 'set_sul': op_set_sul, 'script': op_script, 'attr': op_attr, 'lowwrite': op_lowwrite, 'new_file': op_new_file, 'add_lf': op_add_lf, 'add': op_add, 'set': op_set,
        'nofmt_data': op_nofmt_data, 'hc_enter': op_hc, 'hc_exit': op_hc, 'hc_exit_exc': op_hc,
        'hc_decorated': op_hc_decorated, 'write': op_write, 'encode': op_encode}
 
